@@ -690,6 +690,31 @@ class Interp:
                     self.module = g_[2]
                     try:
                         v = self.ev(g_[1], Env())
+                        if isinstance(v, (list, dict, set)):
+                            # statements of the module that complete the object at import time: NAME.update(...), NAME[k] = v, NAME.append(...), NAME += ...
+                            self._global_values[key] = v
+                            en_ = Env()
+                            en_.set(e.id, v)
+                            after = False
+                            for st_ in getattr(g_[2], 'body', []):
+                                if isinstance(st_, ast.Assign) and st_.value is g_[1]:
+                                    after = True
+                                    continue
+                                if not after:
+                                    continue
+                                tgt_ = None
+                                if isinstance(st_, ast.Expr) and isinstance(st_.value, ast.Call) and isinstance(st_.value.func, ast.Attribute) \
+                                        and isinstance(st_.value.func.value, ast.Name) and st_.value.func.value.id == e.id:
+                                    tgt_ = st_
+                                elif isinstance(st_, ast.Assign) and len(st_.targets) == 1 and isinstance(st_.targets[0], ast.Subscript) \
+                                        and isinstance(st_.targets[0].value, ast.Name) and st_.targets[0].value.id == e.id:
+                                    tgt_ = st_
+                                elif isinstance(st_, ast.AugAssign) and isinstance(st_.target, ast.Name) and st_.target.id == e.id:
+                                    tgt_ = st_
+                                if tgt_ is not None:
+                                    self.stmt(tgt_, en_)
+                                    v = en_.get(e.id)
+                                    self._global_values[key] = v
                     finally:
                         self.module = saved
                     if isinstance(v, (list, dict, set, Obj)):
